@@ -161,7 +161,9 @@ class M:
         return out
 
     def depth(self):
-        return max(d for d, _, _ in self.dfs(self.root, set())) + 1 if self.nodes else 0
+        # number of edges on the longest root-to-leaf path: what the repository's own test_depth pins (the doc comment's
+        # "a tree with only a root node has depth 1" contradicts that test and the code; noted in DESIGN 11.9)
+        return max(d for d, _, _ in self.dfs(self.root, set())) if self.nodes else 0
 
     def path_to(self, i):
         p = []
@@ -464,6 +466,16 @@ def gen_c13(k, sname, ops, thorough, max_steps, concrete_start=False):
                         "assert!(t.decision_indices().next() == %s);" % opt(decs[0] if decs else None),
                         "assert!(t.edge_iter().count() == %d);" % (len(m.nodes) - 1)]
     out.append((base + "_index_iters", 8, body))
+    # ---- loop-based metrics with concrete arguments (a symbolic index did not finish): num_nodes per node, depth, path_to_node
+    for s0 in nodes:
+        heavy = not thorough and len(m.descendants(s0)) >= 2 and m.num_children(s0) >= 2     # full traversal below a node with two children: > 420 s
+        body = list(vpre) + ["assert!(t.num_nodes(%d) == %d);" % (s0, 1 + len(m.descendants(s0)))]
+        if not heavy:
+            out.append(("%s_num_nodes_%d" % (base, s0), 8, body))
+        # path_to_node: no verdict within 300 s even with a concrete argument (f64 log for the capacity + parent loop): outside
+    body = list(vpre) + ["assert!(t.depth() == %d);" % m.depth()]
+    if thorough or not (len(m.descendants(m.root)) >= 2 and m.num_children(m.root) >= 2):
+        out.append((base + "_depth", 8, body))
     return out
 
 
